@@ -8,6 +8,8 @@ T_QUICK, T_THOROUGH = 60, 1200
 FLOORS = {"histories": 1000, "growths": 200, "frees": 5000, "get_free_checks": 20000,
           "alloc_fit_existed": 5000, "alloc_needed_growth": 200, "frees_into_full_buffer": 100}
 FLOORS["impossible_requests_refused"] = 200
+FLOORS["buffers_copied"] = 500
+FLOORS["audits_of_the_other_buffer"] = 10000
 FLOORS_THOROUGH = {"suite:runs": 1, "suite:allocs": 300}
 RULE = ("same history space as C04, every event judged in lock-step against an executable specification of "
         "a sorted, coalescing first-fit free list (xv.bufmon.Shadow): returned offset == lowest fitting free "
